@@ -1063,11 +1063,8 @@ func (t *Tokenizer) readQuotedString(quote rune) (models.Token, error) {
 		if r == '\\' {
 			// Handle escape sequences
 			if err := t.handleEscapeSequence(&buf); err != nil {
-				return models.Token{}, errors.InvalidSyntaxError(
-					fmt.Sprintf("invalid escape sequence: %v", err),
-					models.Location{Line: t.pos.Line, Column: t.pos.Column},
-					string(t.input),
-				)
+				// handleEscapeSequence returns a structured tokenizer error located at the escape
+				return models.Token{}, err
 			}
 			continue
 		}
@@ -1158,7 +1155,8 @@ func (t *Tokenizer) handleEscapeSequence(buf *bytes.Buffer) error {
 	t.pos.Column++
 
 	if t.pos.Index >= len(t.input) {
-		return errors.IncompleteStatementError(t.getCurrentPosition(), string(t.input))
+		// the input ends inside the string literal, right after the backslash
+		return errors.UnterminatedStringError(t.getCurrentPosition(), string(t.input))
 	}
 
 	r, size := utf8.DecodeRune(t.input[t.pos.Index:])
@@ -1172,11 +1170,11 @@ func (t *Tokenizer) handleEscapeSequence(buf *bytes.Buffer) error {
 	case 't':
 		buf.WriteRune('\t')
 	default:
-		return errors.InvalidSyntaxError(
+		return errors.NewError(
+			errors.ErrCodeUnexpectedChar,
 			fmt.Sprintf("invalid escape sequence '\\%c'", r),
 			t.getCurrentPosition(),
-			string(t.input),
-		)
+		).WithContext(string(t.input), 1)
 	}
 
 	t.pos.Index += size
